@@ -10,6 +10,7 @@ require (
 
 require (
 	github.com/dave/jennifer v1.7.0 // indirect
+	github.com/denisbrodbeck/machineid v1.0.1 // indirect
 	github.com/ftrvxmtrx/fd v0.0.0-20150925145434-c6d800382fff // indirect
 	github.com/prataprc/goparsec v0.0.0-20211219142520-daac0e635e7e // indirect
 	golang.org/x/mod v0.22.0 // indirect
